@@ -55,8 +55,16 @@ fn budget_events(ev: &[Event], out: &str, dig: &str) -> Vec<J> {
     res
 }
 
+thread_local! {
+    /// record the contents of the value stack at every instruction (instr-drive --values 1)
+    static VALUES: std::cell::Cell<bool> = std::cell::Cell::new(false);
+}
+
 fn run_with_budget(p: &P, compiled: &CaoCompiledProgram, n: u64) -> (Vec<Event>, String, String) {
     verif::reset(true);
+    if VALUES.with(|v| v.get()) {
+        verif::with_hooks(|h| h.values = true);
+    }
     let mut vm = make_vm(p, &RunCfg { max_instr: n });
     let res = vm.run(compiled);
     let ev = verif::take_events();
@@ -609,6 +617,20 @@ fn decode_at(bc: &[u8], ip: usize, arity_of: &dyn Fn(u32) -> i64) -> (String, us
     (name, 1 + width, args)
 }
 
+/// a value of the value stack as VmData.tla reads it: [t, v, x]
+fn stack_val(v: &verif::StackVal, ids: &mut std::collections::HashMap<usize, i64>) -> J {
+    match v {
+        verif::StackVal::Nil => json!({"t": "n", "v": 0, "x": ""}),
+        verif::StackVal::Int(i) if i.abs() < (1 << 30) => json!({"t": "i", "v": i, "x": ""}),
+        verif::StackVal::Int(i) => json!({"t": "I", "v": 0, "x": i.to_string()}),
+        verif::StackVal::Real(b) => json!({"t": "r", "v": if f64::from_bits(*b) != 0.0 { 1 } else { 0 }, "x": format!("{:016x}", b)}),
+        verif::StackVal::Obj(a) => {
+            let n = ids.len() as i64 + 1;
+            json!({"t": "o", "v": *ids.entry(*a).or_insert(n), "x": ""})
+        }
+    }
+}
+
 fn instr_events(ev: &[Event], bc: &[u8], p: &P) -> Vec<J> {
     use std::str::FromStr;
     let mut arities: std::collections::HashMap<u32, i64> = Default::default();
@@ -616,12 +638,40 @@ fn instr_events(ev: &[Event], bc: &[u8], p: &P) -> Vec<J> {
         arities.insert(Handle::from_str(&n.name).unwrap().value(), n.arity as i64);
     }
     let arity_of = move |h: u32| -> i64 { arities.get(&h).copied().unwrap_or(-1) };
-    let mut res = vec![];
+    let mut res: Vec<J> = vec![];
+    let mut ids: std::collections::HashMap<usize, i64> = Default::default();
+    // does the program assign captured variables?  (then a callee may change a slot of its caller)
+    let mut uv = false;
+    let mut q = 0usize;
+    while q < bc.len() {
+        let (name, n, _) = decode_at(bc, q, &|_| -1);
+        uv |= name == "SetUpvalue";
+        q += n;
+    }
     for e in ev {
         match e {
             Event::Instr { ip, depth, stack_h, call_h, frame_off, .. } => {
                 let (name, n, a) = decode_at(bc, *ip as usize, &arity_of);
                 res.push(json!({"e": "I", "ip": ip, "op": name, "n": n, "a": a, "h": stack_h, "c": call_h, "fo": frame_off, "d": depth}));
+            }
+            Event::Stack(vals) => {
+                // belongs to the instruction record just written: the stack, the immediate value and the global id
+                if let Some(last) = res.last_mut() {
+                    let ip = last["ip"].as_u64().unwrap_or(0) as usize;
+                    let op = last["op"].as_str().unwrap_or("").to_string();
+                    let i64_at = |o: usize| -> i64 { if o + 8 <= bc.len() { i64::from_le_bytes(bc[o..o + 8].try_into().unwrap()) } else { 0 } };
+                    let u32_at = |o: usize| -> i64 { if o + 4 <= bc.len() { u32::from_le_bytes(bc[o..o + 4].try_into().unwrap()) as i64 } else { 0 } };
+                    let imm = match op.as_str() {
+                        "ScalarInt" => stack_val(&verif::StackVal::Int(i64_at(ip + 1)), &mut ids),
+                        "ScalarFloat" => stack_val(&verif::StackVal::Real(i64_at(ip + 1) as u64), &mut ids),
+                        _ => json!({"t": "n", "v": 0, "x": ""}),
+                    };
+                    let g = match op.as_str() { "SetGlobalVar" | "ReadGlobalVar" => u32_at(ip + 1), _ => 0 };
+                    last["s"] = J::Array(vals.iter().map(|v| stack_val(v, &mut ids)).collect());
+                    last["imm"] = imm;
+                    last["g"] = json!(g);
+                    last["uv"] = json!(uv);
+                }
             }
             Event::RunStart { .. } => res.push(json!({"e": "RunStart"})),
             Event::RunEnd { ok } => res.push(json!({"e": "RunEnd", "ok": ok})),
@@ -642,6 +692,7 @@ pub fn instr_drive(args: &[String]) {
     let start = arg_num(args, "--start-case", 0) as usize;
     let append = arg_num(args, "--append", 0) == 1;
     let max_events = arg_num(args, "--max-events", 4000) as usize;
+    VALUES.with(|v| v.set(arg_num(args, "--values", 0) == 1));
     let mut w = TraceWriter::open(out, append, 20_000);
     // with the `hosttry` profile the first cases are hand-written: a recursion that reaches the last call frames and, at the
     // bottom, a host function that re-enters the interpreter and handles the failure (call-stack overflow of the re-entry)
